@@ -61,6 +61,7 @@ func Run(ctx *core.Ctx) {
 	}
 	e.add(sites)
 	e.add(srcUnits())
+	e.add(longUnits())
 	fu, err := featureUnits()
 	if err != nil {
 		ctx.ToolError("cannot read the repository's testdata: %v", err)
@@ -68,7 +69,7 @@ func Run(ctx *core.Ctx) {
 	e.add(fu)
 
 	// seeded random bundles until the budget of fault points is used
-	target := ctx.Pick(40000, 1000000)
+	target := ctx.Pick(70000, 1700000)
 	m3n := ctx.Pick(120, 4000)
 	rng := rand.New(rand.NewSource(ctx.Seed))
 	gi := 0
@@ -129,14 +130,17 @@ func Run(ctx *core.Ctx) {
 
 // engine holds the units and their results.
 type engine struct {
-	ctx      *core.Ctx
-	units    []*Unit
-	results  map[*Unit]*unitResult
-	seen     map[string]bool
-	pointsOf map[string]int // planned fault points per family
-	dups     int
-	rejects  int
-	panics   int
+	ctx          *core.Ctx
+	units        []*Unit
+	results      map[*Unit]*unitResult
+	seen         map[string]bool
+	pointsOf     map[string]int // planned fault points per family
+	unstable     []string
+	dups         int
+	rejects      int
+	rejectsOf    map[string]int
+	rejectSample string
+	panics       int
 }
 
 func parallel(n int, f func(i int)) {
@@ -168,6 +172,7 @@ func parallel(n int, f func(i int)) {
 func (e *engine) add(us []*Unit) {
 	if e.pointsOf == nil {
 		e.pointsOf = map[string]int{}
+		e.rejectsOf = map[string]int{}
 	}
 	var fresh []*Unit
 	for _, u := range us {
@@ -182,13 +187,23 @@ func (e *engine) add(us []*Unit) {
 	parallel(len(fresh), func(i int) { fresh[i].build() })
 	for _, u := range fresh {
 		if u.compileE != "" {
+			// a generated bundle the compiler rejects is the generator's
+			// (C02/C07's) business; hand-written units must compile
 			e.rejects++
-			if e.rejects <= 3 {
-				e.ctx.ToolError("unit %s does not compile (harness/generator problem): %s\n%s", u.ID, u.compileE, u.Files[0].Text)
+			e.rejectsOf[u.Family]++
+			if u.Family != "proggen" {
+				e.ctx.ToolError("unit %s does not compile (harness problem): %s\n%s", u.ID, u.compileE, u.Files[0].Text)
+			} else if e.rejectSample == "" {
+				e.rejectSample = u.ID + ": " + u.compileE
 			}
 			continue
 		}
 		u.faultFree()
+		if u.unstable {
+			// not reproducible even before any fault was injected: not judged
+			e.unstable = append(e.unstable, u.ID)
+			continue
+		}
 		if u.skip != "" {
 			e.panics++
 			if e.panics <= 3 {
@@ -207,7 +222,7 @@ func (e *engine) enumerate() {
 		u := e.units[i]
 		// distinct (template, fault point) pairs whose fault was reached
 		r := u.enumerate(e.ctx.Seed, func(p Plan) {
-			e.ctx.Distinct(fmt.Sprintf("%d:%s%d", i, p.Kind[:2]+p.Kind[len(p.Kind)-1:], p.K))
+			e.ctx.Distinct(fmt.Sprintf("%d:%s", i, p))
 		})
 		res[i] = r
 	})
@@ -226,9 +241,9 @@ func (e *engine) report() {
 	bySite := map[string]int{}
 	byKind := map[string]int{}
 	bySig := map[string]int{}
-	var writes, bytesOut int
+	var writes, bytesOut, healthy int
 	samples := 0
-	var unstable []string
+	unstable := e.unstable
 	for i, u := range e.units {
 		r := e.results[u]
 		fs := fams[u.Family]
@@ -237,17 +252,14 @@ func (e *engine) report() {
 			fams[u.Family] = fs
 		}
 		fs.Units++
-		if r.unstable {
-			fs.Unstable++
-			unstable = append(unstable, u.ID)
-			continue
-		}
+
 		writes += len(u.writes)
 		bytesOut += len(u.ffOut)
 		fs.Renders += r.renders
 		fs.Reached += r.reached
 		fs.NotReached += r.notReached
 		fs.Violations += len(r.violations)
+		healthy += r.healthy
 		ctx.AddEvals(int64(r.renders))
 		for s, n := range r.bySite {
 			bySite[s] += n
@@ -257,7 +269,7 @@ func (e *engine) report() {
 		}
 		if samples < 6 && len(u.writes) >= 3 && (u.Family != "builtin" || samples < 2) && i%7 == 0 {
 			samples++
-			p := Plan{"cap", len(u.ffOut) / 2}
+			p := Plan{Kind: "cap", K: len(u.ffOut) / 2}
 			o := u.run(p)
 			ctx.Sample(map[string]interface{}{"unit": u.ID, "files": u.Files, "data": u.Data, "plan": p, "site": o.Site,
 				"faultFreeOut": string(u.ffOut), "writeCalls": len(u.writes), "accepted": string(o.Accepted), "err": errText(o.Err), "verdict": verdict(o)})
@@ -268,8 +280,7 @@ func (e *engine) report() {
 			if !o.CountOnly {
 				rc = u.replay(o)
 			}
-			ctx.Violation(core.Sig{Family: "fault-enum", Feature: o.Feature},
-				fmt.Sprintf("%s plan %s: %s; err=%q accepted %d of %d bytes", u.ID, o.Plan, o.What, errText(o.Err), len(o.Accepted), len(u.ffOut)), rc)
+			ctx.Violation(core.Sig{Family: "fault-enum", Feature: o.Feature}, describe(u, o), rc)
 		}
 	}
 	ctx.AddTraces(ctx.Evals)
@@ -288,9 +299,16 @@ func (e *engine) report() {
 	ctx.Extra["fault_points_by_plan_kind"] = byKind
 	ctx.Extra["violations_by_feature"] = bySig
 	ctx.Extra["templates"] = len(e.units)
+	ctx.Extra["healthy_writer_renders_interleaved"] = healthy
 	ctx.Extra["fault_free_write_calls_total"] = writes
 	ctx.Extra["fault_free_bytes_total"] = bytesOut
 	ctx.Extra["duplicate_templates_dropped"] = e.dups
+	if n := e.rejectsOf["proggen"]; n > 0 {
+		ctx.Extra["generated_bundles_rejected_by_compiler"] = map[string]interface{}{"count": n, "first": e.rejectSample}
+		if fs := fams["proggen"]; fs == nil || n > fs.Units/4 {
+			ctx.ToolError("%d generated bundles were rejected by the compiler (generator out of step with the tree?): %s", n, e.rejectSample)
+		}
+	}
 	var fnames []string
 	for f := range fams {
 		fnames = append(fnames, f)
@@ -300,6 +318,18 @@ func (e *engine) report() {
 		fs := fams[f]
 		fmt.Printf("family %-9s templates=%d faulted-renders=%d reached=%d violations=%d\n", f, fs.Units, fs.Renders, fs.Reached, fs.Violations)
 	}
+}
+
+// describe is the one-line account of a violating outcome.
+func describe(u *Unit, o *Outcome) string {
+	if o.Healthy {
+		return fmt.Sprintf("%s healthy writer, after plans %v: %s; err=%q", u.ID, o.History, o.What, errText(o.Err))
+	}
+	s := fmt.Sprintf("%s plan %s: %s; err=%q accepted %d of %d bytes", u.ID, o.Plan, o.What, errText(o.Err), len(o.Accepted), len(u.ffOut))
+	if len(o.History) > 0 {
+		s += fmt.Sprintf(" (after plans %v)", o.History)
+	}
+	return s
 }
 
 func verdict(o *Outcome) string {
